@@ -467,7 +467,14 @@ def _set_allocations_for_consumer(req, schema):
         # NOTE(jaypipes): This will only occur 1.28+. The JSONSchema will
         # prevent an empty allocations object from being passed when there is
         # no consumer generation, so this is safe to do.
-        allocations = alloc_obj.get_all_by_consumer_id(context, consumer_uuid)
+        try:
+            allocations = alloc_obj.get_all_by_consumer_id(
+                context, consumer_uuid)
+        except Exception:
+            # Do not leave the consumer auto-created above behind.
+            with excutils.save_and_reraise_exception():
+                if created_new_consumer:
+                    delete_consumers([consumer])
         for allocation in allocations:
             allocation.used = 0
             # Use the consumer object whose generation was compared with
@@ -481,7 +488,7 @@ def _set_allocations_for_consumer(req, schema):
         try:
             rp_objs = _resource_providers_by_uuid(
                 context, allocation_data.keys())
-        except webob.exc.HTTPBadRequest:
+        except Exception:
             # Do not leave the consumer auto-created above behind.
             with excutils.save_and_reraise_exception():
                 if created_new_consumer:
@@ -606,7 +613,7 @@ def set_allocations(req):
     # generations (if applicable) check all in one go.
     try:
         allocations = create_allocation_list(context, data, consumers)
-    except webob.exc.HTTPBadRequest:
+    except Exception:
         # Do not leave the consumers auto-created above behind.
         with excutils.save_and_reraise_exception():
             delete_consumers(new_consumers_created)
